@@ -13,6 +13,7 @@ use std::f64::consts::PI;
 ///
 /// This method updates the position of the plane if the following conditions are met:
 /// - The CPR latitude and longitude values are not equal to zero.
+/// - The even and the odd frame are of the same kind (both surface or both airborne).
 /// - The time difference between the CPR timestamps is less than 10 seconds.
 ///
 /// If the conditions are met and the calculated latitude and longitude values are within the valid range,
@@ -24,6 +25,7 @@ impl Plane {
             && self.cpr_lat[1] != 0
             && self.cpr_lon[0] != 0
             && self.cpr_lon[1] != 0
+            && self.cpr_surface[0] == self.cpr_surface[1]
             && self.cpr_time[0]
                 .signed_duration_since(self.cpr_time[1])
                 .num_seconds()
